@@ -142,7 +142,9 @@ class Prop:
         # 3. unknown / malformed fields are ignored
         base_fields = [b's:st1', b'c:123', b't:hi there', b'g:1-2-9']
         junk = [b'x:unknown', b'nocolon', b'', b'\xff\xfe', b'zz:1', b'G:1-2-3', b':', b'g:1-2', b'g:a-b-c', b'g:1-2-3-4',
-                b's', b'S:upper', b'\xc3:1']
+                b's', b'S:upper', b'\xc3:1',
+                # unknown codes that END in a known one, or start with a blank / a colon
+                b'xs:other', b'ts:1', b' s:blank', b':s:colon', b'src:9', b'xg:1-2-3', b'gg:4-5-6', b'nn:7', b'dc:1', b'tr:5']
         ref = impl.step('tagblock.parse ' + impl.hx(b','.join(base_fields) + b'*%X' % xor(b','.join(base_fields))))
         ops, meta = [], []
         for j in junk:
